@@ -261,6 +261,16 @@ def creation_rules(ctx, ss):
         ctx.count(('erdos-renyi-p', p, seed), nontrivial=True); ctx.dist('creation rule: Erdos-Renyi edge probability')
         if abs(got - want) > 6 * sd + 1:
             ctx.violation(f'ErdosRenyiNet(p={p}) on {n} agents holds {got} of the {int(pairs)} possible pairs ({got / pairs:.4f}); each pair is to be an edge with probability {p} ({want:.0f} +- {sd:.0f})', dict(probe='erdos-renyi-p', p=p, seed=seed, edges=got))
+    # the pair numbers themselves: ss.utils.combine_rands on unsigned 64-bit draws vs the model (exact bits; the division in binary64 within 1e-15)
+    from vlib.core import qlit as _ql
+    nr = np.random.Generator(np.random.PCG64(rng.randrange(1, 10**6)))
+    aa = nr.integers(0, 2**64, size=ctx.n(60, 600), dtype=np.uint64); bb = nr.integers(0, 2**64, size=len(aa), dtype=np.uint64)
+    uu = np.asarray(ss.utils.combine_rands(aa, bb), dtype=float)
+    terms = [f'({int(a_)}%Z, {int(b_)}%Z, {_ql(float(u_))})' for a_, b_, u_ in zip(aa, bb, uu)]
+    for _ in terms: ctx.count(('combine', _[:30]))
+    ctx.dist('combine_rands pairs replayed in Coq', len(terms))
+    bad = ctx.coq_mismatches('c14comb', IMPORTS, 'Z * Z * Q', terms, "Definition ok (c : Z * Z * Q) : bool := let '(a, b, u) := c in Qclose (1 # 100000000000000) (combine_u64 a b) u.", shard=300)
+    for j in bad[:3]: ctx.broke('correspondence', f'ss.utils.combine_rands({int(aa[j])}, {int(bb[j])}) = {float(uu[j])} differs from the model combine_u64')
     for r_ in (0.1, 0.25):      # disk network: exactly the pairs of active agents closer than r
         n = 120; seed = rng.randrange(1, 10**4)
         sim = ss.Sim(n_agents=n, networks=ss.DiskNet(r=r_), diseases=ss.SIS(), demographics=[ss.Births(birth_rate=40), ss.Deaths(death_rate=40)], dur=3, rand_seed=seed, verbose=0); sim.init()
